@@ -1,6 +1,4 @@
 import Bmc.Proofs.C14
-import Bmc.Proofs.GenOrch.WalkSDRs
-import Bmc.Proofs.GenOrch.RetrieveSDRRepository
 #print axioms Bmc.Proofs.C14.walk_complete
 #print axioms Bmc.Proofs.C14.retrieve_complete
 #print axioms Bmc.Proofs.C14.result_exact
@@ -10,5 +8,3 @@ import Bmc.Proofs.GenOrch.RetrieveSDRRepository
 #print axioms Bmc.Proofs.C14.modified_discarded_repeat
 #print axioms Bmc.Proofs.C14.snapshot
 #print axioms Bmc.Proofs.C14.snapshot_run
-#print axioms Bmc.Proofs.GenOrch.walkSDRs_gen_eq
-#print axioms Bmc.Proofs.GenOrch.RetrieveSDRRepository_gen_eq
